@@ -297,6 +297,8 @@ def block(rng, W, named):
         return equal_offenders(rng, W, wordy=True, contexts=EQ_ORDINARY).strip("\n").split("\n") + [""] if rng.random() < 0.8 else preblock(rng, W)
     if r < 0.95:
         return linkbody(rng, W)
+    if r < 0.97 and named is not None:      # one footnote name in several spellings, defined once
+        return [ln for ln in refname_doc(rng, W, ordinary=True).split("\n") if not ln.startswith(("==", "<references"))]
     return [": " + inline(rng, W, 1, named=named), ""]
 
 
@@ -443,7 +445,8 @@ def frag(rng, W, depth=0):
         if t == "references":
             return rng.choice(["<references/>", "<references>%s</references>" % frag(rng, W, d)])
         if t == "ref":
-            nm = rng.choice(["", "", ' name="n1"', ' name="n2"', ' name=n1', ' name="n1" group="g"'])
+            nm = rng.choice(["", "", ' name="n1"', ' name="n2"', ' name=n1', ' name="n1" group="g"',
+                             " name=" + spell_name(rng, rng.choice(name_variants(rng.choice(["n1", "n2", "a b"]))))])
             return rng.choice(["<ref%s>%s</ref>" % (nm, frag(rng, W, d + 1)), "<ref%s/>" % nm, "<ref%s></ref>" % nm, "<ref%s>x</ref>" % nm])
         if t == "gallery":
             return "\n<gallery%s>\nFile:%s.jpg|%s\nImage:%s.png\n%s\n</gallery>\n" % (attrs(rng), W(), frag(rng, W, d + 2), W(), W())
@@ -493,6 +496,16 @@ def adversarial(rng):
     if k < 0.15:                                # family: equal offenders under one forbidden ancestor
         W = Words("v")
         t = equal_offenders(rng, W)
+        if rng.random() < 0.3:
+            t = frag(rng, W, 2) + "\n" + t + frag(rng, W, 2)
+        return t
+    if k < 0.19:                                # family: captioned tables x table-pass triggers
+        t = captioned_table(rng, W)
+        if rng.random() < 0.2:
+            t = t + frag(rng, W, 2)
+        return t
+    if k < 0.23:                                # family: one reference name in many spellings
+        t = refname_doc(rng, W)
         if rng.random() < 0.3:
             t = frag(rng, W, 2) + "\n" + t + frag(rng, W, 2)
         return t
@@ -703,6 +716,234 @@ def equal_offenders(rng, W, n=None, wordy=False, contexts=None):
                 parts.append(W())
     body = sep.join(parts) if sep else "".join(p if p.startswith("<") else " %s " % p for p in parts)
     return op + body + cl
+
+
+# ------------------------------------------------------------------ family: one reference name, many spellings
+REF_BASES = ["n", "smith", "Doe 2010", "a b c", "ref-1", "Émile", "note_2"]
+LOOKALIKE = {"a": "а", "e": "е", "o": "о", "c": "с", "p": "р", "i": "і", "s": "ѕ", "n": "ｎ",
+             "1": "１", "2": "٢", "0": "О", "-": "‐", "_": "＿", "E": "Е", "D": "Ꭰ", "É": "É"}
+
+
+def name_variants(base):
+    """spellings a reader (or the Cite extension) may or may not take for the same footnote name as `base`: surrounding /
+    inner blanks (space, tab, no-break space, zero-width space, ideographic space, underscore), case, Unicode look-alikes
+    (Cyrillic / fullwidth / decomposed letters and digits), quote characters inside the value, trailing punctuation"""
+    v = [base, " " + base, base + " ", " " + base + " ", "  " + base + "  ", "\t" + base, base + "\t", "\u00a0" + base, base + "\u00a0",
+         base + "\u200b", "\u3000" + base + "\u3000", "_" + base, base + "_"]
+    if " " in base:
+        v += [base.replace(" ", "  "), base.replace(" ", "_"), base.replace(" ", "\u00a0"), base.replace(" ", "\t"), base.replace(" ", "")]
+    else:
+        h = max(1, len(base) // 2)
+        v += [base[:h] + " " + base[h:], base[:h] + "_" + base[h:]]
+    v += [base.upper(), base.lower(), base.capitalize(), base.swapcase(), base.title()]
+    for i, ch in enumerate(base):
+        if ch in LOOKALIKE:
+            v.append(base[:i] + LOOKALIKE[ch] + base[i + 1:])
+    v.append("".join(LOOKALIKE.get(ch, ch) for ch in base))
+    v += ['"%s"' % base, "'%s'" % base, '"%s' % base, "%s'" % base, "%s." % base, "%s:" % base]
+    out = []
+    for x in v:
+        if x not in out and x and "<" not in x and ">" not in x:
+            out.append(x)
+    return out
+
+
+def spell_name(rng, v):
+    """the attribute value as it is written in the tag: double quotes, single quotes, or bare"""
+    k = rng.random()
+    if '"' in v:
+        return "'%s'" % v if "'" not in v else '"%s"' % v.replace('"', "")
+    if k < 0.2 and "'" not in v:
+        return "'%s'" % v
+    if k < 0.35 and not re.search(r"[\s'\"<>|=/\u00a0\u3000\u200b]", v):
+        return v
+    return '"%s"' % v
+
+
+def refname_doc(rng, W, ordinary=False):
+    """2..6 occurrences of ONE footnote name, each in a spelling of name_variants (50%: as is), each a definition (content
+    words), an empty use or an empty pair; at least one definition and one empty use; in running text, list items or table
+    cells, optionally in different sections"""
+    base = rng.choice(REF_BASES)
+    vs = name_variants(base)
+    n = rng.randint(2, 6)
+    kinds = ["def", "use"] + [rng.choice(["def", "use", "use", "pair"]) for _ in range(n - 2)]
+    rng.shuffle(kinds)
+    if ordinary:          # a name is defined once (a second definition of the same name is merged by design)
+        kinds = ["def"] + ["use"] * (n - 1)
+        rng.shuffle(kinds)
+    out = []
+    for k in kinds:
+        v = base if rng.random() < 0.5 else rng.choice(vs)
+        att = ("%s=%s" if ordinary or rng.random() < 0.85 else rng.choice(["%s = %s", "%s= %s"])) % (
+            "name" if ordinary or rng.random() < 0.9 else rng.choice(["NAME", "Name"]), spell_name(rng, v))
+        if k == "def":
+            r = "<ref %s>%s</ref>" % (att, refcontent(rng, W) if rng.random() < 0.5 else W.some(rng, 1, 3))
+        elif k == "use":
+            r = "<ref %s/>" % att
+        else:
+            r = "<ref %s></ref>" % att
+        out.append(r)
+    lines = []
+    lay = rng.random()
+    if lay < 0.5:
+        lines += [" ".join("%s%s" % (W.some(rng, 1, 3), r) for r in out) + " " + W(), ""]
+    elif lay < 0.7:
+        lines += ["* %s %s" % (W.some(rng, 1, 2), r) for r in out] + [""]
+    elif lay < 0.85:
+        lines += ["{|", "|-"] + ["| %s %s" % (W(), r) for r in out] + ["|-"] + ["| %s" % W() for _ in out] + ["|}", ""]
+    else:
+        for r in out:
+            lines += ["== %s ==" % W.some(rng, 1, 2), "%s %s %s" % (W.some(rng, 1, 3), r, W()), ""]
+    if rng.random() < 0.7:
+        lines += ["== %s ==" % W.some(rng, 1, 2), W.some(rng, 1, 3), "", "<references/>", ""]
+    return "\n".join(lines)
+
+
+def refname_sweep():
+    """base name x variant, exhaustively, in small documents: the definition carries one spelling and the empty use the other
+    (both directions), the use before and after the definition"""
+    docs = []
+
+    def q(x):
+        return "'%s'" % x if '"' in x else '"%s"' % x
+
+    for base in REF_BASES[:3]:
+        for v in name_variants(base)[1:]:
+            for a, b in ((v, base), (base, v)):
+                docs.append("w1<ref name=%s>w2 w3</ref> w4<ref name=%s/> w5\n\n<references/>\n" % (q(a), q(b)))
+                docs.append("w1<ref name=%s/> w4<ref name=%s>w2 w3</ref> w5\n\n<references/>\n" % (q(b), q(a)))
+    return docs
+
+
+def reflink_sweep():
+    """space 2: one article linked twice - label x label (different / equal / none), inside one footnote, across two footnotes,
+    in the body text and a footnote, in a named footnote that is used twice"""
+    docs = []
+    l1s = ["[[Tw90|w91 w92]]", "[[Tw90]]"]
+    l2s = ["[[Tw90|w93 w94 w95]]", "[[Tw90|w91 w92]]", "[[Tw90]]"]
+    for l1 in l1s:
+        for l2 in l2s:
+            docs.append("== w1 ==\nw2 w3<ref>w4 %s w5 %s w6</ref> w7\n\n== w8 ==\nw9\n\n<references/>\n" % (l1, l2))
+            docs.append("== w1 ==\nw2 w3<ref>w4 %s</ref> w5<ref>%s w6</ref> w7\n\n== w8 ==\nw9\n\n<references/>\n" % (l1, l2))
+            docs.append("== w1 ==\nw2 %s w3<ref>w4 %s w5</ref> w7\n\n* w10 %s\n\n== w8 ==\nw9\n\n<references/>\n" % (l1, l2, l2))
+            docs.append('== w1 ==\nw2 w3<ref name="n1">%s %s</ref> w7<ref name="n1"/>\n\n== w8 ==\nw9\n\n<references/>\n' % (l1, l2))
+    return docs
+
+
+# ------------------------------------------------------------------ family: captioned tables x the triggers of every table pass
+# captions by number / kind of inline nodes (the parser makes one node per text run, style, link, tag)
+CAPTIONS = [
+    "cap",
+    "cap '''bold'''",
+    "Results of the '''2010''' season, [[see also]] the ''notes''",
+    "a '''b''' c ''d'' e [[f]] g <u>h</u> i <small>j</small> k",
+    "<big>head</big> a '''b''' c [[d|e]] f <big>g</big> h",
+    "x<ref>note</ref> y [[File:a.png|20px]] z<br/>w ''v''",
+    "",
+    "a [[b]] [[c]] [[d]] [[e]] [[f]] [[g]] [[h]] [[i]] [[j]] [[k]] [[l]] [[m]] [[n]] [[o]] [[p]] [[q]]",
+]
+
+
+def _items(n, w="it"):
+    return "\n".join("* %s%d" % (w, i) for i in range(n))
+
+
+def _chars(n, w="ch"):
+    return " ".join("%s%d" % (w, i) for i in range(n // 6 + 1))
+
+
+def _nested(rows, cols, attr="", w="n"):
+    return "\n{|%s\n" % attr + "\n".join("|-\n" + "\n".join("| %s%d_%d" % (w, r, c) for c in range(cols)) for r in range(rows)) + "\n|}\n"
+
+
+# name -> (table attributes, body after the caption line); one entry per size / shape / class / style condition that a table
+# pass of treecleaner.py tests (the pass / helper is named in the comment)
+TABLE_TRIGGERS = {
+    "plain-2x2": ("", "|-\n| a || b\n|-\n| c || d"),
+    "plain-1x2": ("", "|-\n| a || b"),
+    "big-cell-list": ("", "|-\n| left\n|\n%s" % _items(28)),                                 # split_table_to_columns / _is_big_cell: list > 25 items
+    "big-cell-chars": ("", "|-\n| left\n| %s" % _chars(5200)),                               # _is_big_cell: > 5000 characters
+    "big-cell-nested-rows": ("", "|-\n| left\n|%s" % _nested(26, 2)),                        # _is_big_cell: nested table >= 25 rows
+    "big-cell-nested-cols": ("", "|-\n| left\n|%s" % _nested(1, 31)),                        # _is_big_cell: numcols > 30; linearize_wide_nested_tables
+    "split-class": (' class="mp-upper"', "|-\n| a || b\n|-\n| c || d"),                      # split_table_class_ids
+    "split-id": (' id="mp-upper"', "|-\n| a\n| b\n| c"),
+    "border-tables": ("", "|-\n|%s%s\n|%s" % (_nested(1, 1, ' border="1"'), _nested(1, 1, ' border="1"'), _nested(1, 1, ' border="1"'))),   # _should_split_table_based_on_border_count
+    "headings-lists": ("", "|-\n|\n<big>h1</big>\n%s\n|\n%s\n|\n%s" % (_items(4, "p" * 250), _items(4, "q" * 250), _items(4, "r" * 250))),  # _should_split_table_based_on_headings_and_lists
+    "single-col-long": ("", "|-\n| %s\n|-\n| x" % _chars(2700)),                             # transform_single_col_tables: is_long
+    "single-col-one-row": ("", "|-\n| only"),
+    "single-col-images": ("", "|-\n| [[File:a.png]]\n|-\n| [[File:b.png]]"),
+    "single-col-gallery": ("", "|-\n|\n<gallery>\nFile:a.jpg|cap\n</gallery>\n|-\n| x"),
+    "single-col-many-cells": ("", "\n".join("|-\n| r%d" % i for i in range(205))),
+    "nested-container": ("", "|-\n|%s" % _nested(8, 3, w="nestedword")),                     # transform_nested_tables: > 500 characters, tables only
+    "nested-single": ("", "|-\n|%s" % _nested(2, 2)),                                        # _remove_if_single_table
+    "wide-nested": ("", "|-\n| a\n|%s" % _nested(2, 17)),                                    # linearize_wide_nested_tables: > 15 columns
+    "tall-cell": ("", "|-\n| l\n|\n%s\n\n%s\n\n%s\n|-\n| x\n| y" % (_chars(1500), _chars(1500, "d"), _chars(1200, "e"))),   # split_big_table_cells
+    "list-rows": ("", "|-\n|\n%s\n|\n%s" % (_items(7), _items(2, "k"))),                     # split_table_lists
+    "navbox": (' class="navbox"', "|-\n| a || b"),                                           # remove_critical_tables
+    "scroll": (' style="overflow:auto;height:200px"', "|-\n| a || b\n|-\n| c || d"),         # remove_scroll_elements
+    "scroll-cell": ("", '|-\n| a\n|\n<div style="overflow:auto;height:300px">s</div>\n|-\n| c || d'),
+    "empty-trailing-rows": ("", "|-\n| a || b\n|-\n| ||\n|-\n|"),                            # remove_empty_training_table_rows
+    "unnest-ending": ("", "|-\n| a || b\n|-\n| colspan=2 |%s" % _nested(22, 1)),             # unnest_ending_cell_content
+    "colspan-single": ("", "|-\n| colspan=9 | a\n|-\n| b || c"),                             # fix_table_colspans
+    "empty-ending-cells": ("", "|-\n| a || b || ||"),
+    "wide-16": ("", "|-\n" + "\n".join("| c%d" % i for i in range(16))),
+    "rows-26": ("", "\n".join("|-\n| a%d || b%d" % (i, i) for i in range(26))),
+    "noprint": (' class="noprint"', "|-\n| a || b"),
+    "infobox": (' class="infobox"', "|-\n| a || b\n|-\n|\n%s\n| c" % _items(27)),
+    "sections-in-cell": ("", "|-\n|\n== h ==\n%s\n| b" % _chars(2100)),                      # remove_big_sections_from_cells
+}
+LEAD = " ".join("lead%d" % i for i in range(40)) + "\n\n"
+
+
+def captioned_table_text(attrs_, body, caps, where="top"):
+    cl = "".join("|+ %s\n" % c for c in caps)
+    if where == "top":
+        return "{|%s\n%s%s\n|}\n" % (attrs_, cl, body)
+    if where == "bottom":
+        return "{|%s\n%s\n%s|}\n" % (attrs_, body, cl)
+    return "{|%s\n%s%s\n%s|}\n" % (attrs_, cl, body, cl)          # both
+
+
+def captioned_table_sweep():
+    """trigger x caption, exhaustively, with lead text (so that the table is not marked as infobox); plus, for the plain caption
+    and the six-node caption, without lead text and with the caption below the rows"""
+    docs = []
+    for name in sorted(TABLE_TRIGGERS):
+        a, body = TABLE_TRIGGERS[name]
+        for i, cap in enumerate(CAPTIONS):
+            docs.append(LEAD + captioned_table_text(a, body, [cap]))
+            if i in (0, 2):
+                docs.append(captioned_table_text(a, body, [cap]))
+                docs.append(LEAD + captioned_table_text(a, body, [cap], "bottom"))
+    return docs
+
+
+CAPTION_NODES = ["%s", "'''%s'''", "''%s''", "[[%s]]", "[[T|%s]]", "<big>%s</big>", "<u>%s</u>", "%s<br/>", "<ref>%s</ref>",
+                 "[http://example.com/x %s]", "<span>%s</span>", "<small>%s</small>"]
+
+
+def captioned_table(rng, W):
+    """a random member of the same family: random trigger, 1-2 captions (one of CAPTIONS or a generated run of 1..12 inline
+    nodes), random extra attributes, random position of the caption, inside a div / cell / region_list now and then"""
+    a, body = TABLE_TRIGGERS[rng.choice(sorted(TABLE_TRIGGERS))]
+    caps = []
+    for _ in range(rng.choice([1, 1, 1, 2])):
+        if rng.random() < 0.4:
+            caps.append(rng.choice(CAPTIONS))
+        else:
+            caps.append(" ".join(rng.choice(CAPTION_NODES) % W() for _i in range(rng.randint(1, 12))))
+    if rng.random() < 0.25:
+        a = a + attrs(rng)
+    t = captioned_table_text(a, body, caps, rng.choice(["top", "top", "top", "bottom", "both"]))
+    k = rng.random()
+    if k < 0.1:
+        t = "<div%s>\n%s</div>\n" % (attrs(rng), t)
+    elif k < 0.15:
+        t = "{|\n|-\n| o1\n|\n%s| o2\n|}\n" % t
+    elif k < 0.2:
+        t = '<div id="region_list">\n%s</div>\n' % t
+    return (LEAD if rng.random() < 0.75 else "") + t
 
 
 # hand-written seeds that reach the individual passes (always run first)
